@@ -59,11 +59,21 @@ def directed_cases():
     return out
 
 
-def signature(bad):
+def switched_with_pending(case, ob):
+    """retention goes from R>0 to 0 at a restart while the error queue holds events queued under R>0"""
+    its = ob["sessions"]["iters"]
+    for j in range(1, len(its)):
+        if its[j].get("restart") and its[j].get("retention", case["retention"]) == 0 \
+                and its[j - 1].get("retention", case["retention"]) > 0 and ob["iters"][j - 1]["queue"]:
+            return True
+    return False
+
+
+def signature(bad, case=None, ob=None):
     if bad and set(bad) <= {14, 16}:
         return "F5-readd-while-removal-queued"
-    if 17 in bad and set(bad) <= {17, 14, 15, 11, 16}:
-        return "F23-retention-switched-to-0-with-queued-readd"
+    if set(bad) <= {17, 14, 15, 11, 13, 16} and case is not None and switched_with_pending(case, ob):
+        return "F23-retention-switched-to-0-with-queued-events"
     return None
 
 
@@ -102,7 +112,7 @@ def run(ctx):
             bad = [k for k, o in zip(sorted(CLAUSES), ORACLES) if not sub[i][o]]
             for k in bad:
                 clause_hist[k] = clause_hist.get(k, 0) + 1
-            violations.append({"sig": signature(bad), "clauses": bad,
+            violations.append({"sig": signature(bad, cases[i], res[i][0]), "clauses": bad,
                                "what": "; ".join(CLAUSES[k] for k in bad) + f" (case {i})", **rep})
         elif not c_ok:
             corr.append({"what": f"corr_client (trashbin): client model != GenericClient on case {i}", **rep})
